@@ -196,6 +196,8 @@ def oracle(case, irecs, mrecs):
             break
         R = irecs[i]['R']; F = irecs[i].get('F'); S = mrecs[i].get('S')
         c = op[0]
+        if i > 0 and irecs[i - 1]['R'] != mrecs[i - 1]['R']:
+            break       # implementation and model diverged at the previous operation: the model's ground truth no longer describes this history
         if c == 1 and R == [1] and len(op) >= 5:
             regs[op[1]] = (op[2], op[3], op[4]); deser.discard(op[1])
         elif c == 7 and R == [1] and op[1] in regs:
@@ -212,7 +214,11 @@ def oracle(case, irecs, mrecs):
             n, ret, estmode, empty, k, dim = R[:6]
             true_n, lost, comp, _ = S
             if n != true_n:
-                if lost > 0 and n == true_n - lost:
+                if op[1] in deser and n == 0 and ret == 0:
+                    fail('roundtrip_drops_n_zero_retained',
+                         'after serialize/deserialize n = 0 but the sketch had n = %d: a sketch whose compactions dropped every point '
+                         '(num_retained 0) is written as empty' % true_n, i)
+                elif lost > 0 and n == true_n - lost:
                     fail('merge_ignores_source_with_zero_retained',
                          'n = %d but %d points were fed (updates + merged sketches): merge() skipped a source whose num_retained was 0 '
                          'although its n was %d (is_empty() tests num_retained; a compaction had dropped all its points)' % (n, true_n, lost), i)
